@@ -1,21 +1,23 @@
 #!/bin/bash
-# usage: confirm_seed.sh <worktree dir> [demo test name]   — independent confirmation of a seeded change
-# (1) demo fails with the patch, (2) passes without, (3) existing suite passes with the patch.
-WT="$1"; DEMO="${2:-demo_break}"
+# usage: confirm_seed.sh <worktree dir> [demo test name] [proto]   — independent confirmation of a seeded change
+# (1) demo passes without the patch, (2) fails with it, (3) existing suite passes with the patch.
+# third argument "proto": the demo belongs to wtransport-proto/tests and runs with --features async
+WT="$1"; DEMO="${2:-demo_break}"; CRATE=wtransport; FEAT="quinn,dangerous-configuration,self-signed"
+if [ "$3" = proto ]; then CRATE=wtransport-proto; FEAT="async"; fi
 cd "$WT" || exit 2
-FEAT="quinn,dangerous-configuration,self-signed"
 P="$WT/SEEDED/patch.diff"
 # normalise: start from clean library sources
 git stash -q --include-untracked -- wtransport/src wtransport-proto/src 2>/dev/null
 git checkout -q -- wtransport/src wtransport-proto/src 2>/dev/null
-[ -f "wtransport/tests/$DEMO.rs" ] || cp "SEEDED/$DEMO.rs" "wtransport/tests/$DEMO.rs" 2>/dev/null
+mkdir -p "$CRATE/tests"
+[ -f "$CRATE/tests/$DEMO.rs" ] || cp "SEEDED/$DEMO.rs" "$CRATE/tests/$DEMO.rs"
 echo "== without patch"
-timeout 900 cargo test --offline -p wtransport --features $FEAT --test $DEMO -- --test-threads=1 2>&1 | grep -E "^test result|^test .* (FAILED|ok)|error(\[|:)" | head -12
+timeout 1800 cargo test --offline -p $CRATE --features $FEAT --test $DEMO -- --test-threads=1 2>&1 | grep -E "^test result|^test .* (FAILED|ok)|error(\[|:)" | head -12
 git apply "$P" || { echo "PATCH DOES NOT APPLY"; exit 1; }
 echo "== with patch"
-timeout 900 cargo test --offline -p wtransport --features $FEAT --test $DEMO -- --test-threads=1 2>&1 | grep -E "^test result|^test .* (FAILED|ok)|error(\[|:)" | head -12
+timeout 1800 cargo test --offline -p $CRATE --features $FEAT --test $DEMO -- --test-threads=1 2>&1 | grep -E "^test result|^test .* (FAILED|ok)|error(\[|:)" | head -12
 echo "== existing suite with patch (demo moved aside)"
-mkdir -p /tmp/wt/_aside && mv wtransport/tests/$DEMO.rs /tmp/wt/_aside/$DEMO.$$.rs
-timeout 1800 cargo test --workspace --offline 2>&1 | grep -E "^test result|FAILED|error(\[|:)" | head -8
-mv /tmp/wt/_aside/$DEMO.$$.rs wtransport/tests/$DEMO.rs
+mkdir -p /tmp/wt/_aside && mv $CRATE/tests/$DEMO.rs /tmp/wt/_aside/$DEMO.$$.rs
+timeout 2400 cargo test --workspace --offline 2>&1 | grep -E "^test result|FAILED|error(\[|:)" | head -8
+mv /tmp/wt/_aside/$DEMO.$$.rs $CRATE/tests/$DEMO.rs
 git diff --stat -- wtransport/src wtransport-proto/src | tail -1
